@@ -874,7 +874,7 @@ func lockPairing(ic *IC, r *Report, rule string) {
 		r.Errorf("R08.3: only %d lock acquisitions found in package interp", acquire)
 	}
 	r.Info["lock_acquisitions"] = acquire
-	c08Guarded(ic, r)
+	c08Guarded(ic, r, rule)
 }
 
 // guarded-by table: field -> mutex field of the same struct.
@@ -890,7 +890,7 @@ var guardedExempt = map[string]string{
 	"Interpreter.stop/Interpreter.done/read": "stop closes the channel installed by the *WithContext entry point that is calling it; that store happened-before (same goroutine)",
 }
 
-func c08Guarded(ic *IC, r *Report) {
+func c08Guarded(ic *IC, r *Report, rule string) {
 	counter := map[string]int{}
 	for _, g := range guardedBy {
 		fld := ic.field(g.typ, g.field)
@@ -945,7 +945,7 @@ func c08Guarded(ic *IC, r *Report) {
 				}
 				pos := ic.pos(a.sel.Pos())
 				if why, ok := guardedExempt[k]; ok {
-					r.Pass("R08.3", "guarded/"+key, pos, "exempt: "+why)
+					r.Pass(rule, "guarded/"+key, pos, "exempt: "+why)
 					continue
 				}
 				// Find a dominating acquisition of mu with no release in between.
@@ -1001,7 +1001,7 @@ func c08Guarded(ic *IC, r *Report) {
 				if !a.write {
 					need = "Lock or RLock"
 				}
-				r.Check(held, "R08.3", "guarded/"+key, pos, kind+" of "+g.typ+"."+g.field+" under "+mu,
+				r.Check(held, rule, "guarded/"+key, pos, kind+" of "+g.typ+"."+g.field+" under "+mu,
 					kind+" of "+g.typ+"."+g.field+" in "+owner+" is not dominated by "+mu+"."+need+" (or the mutex is released before the access): unsynchronised access to state shared between goroutines")
 			}
 		})
